@@ -168,14 +168,56 @@ inductive Outcome (c : Cfg α) (s : NSt α) (e : Env α) (s' : NSt α) (evs : Li
   | done (h0 : s.rf = none) (h1 : s'.rf = none) (hs : s'.base.step = s.base.step + 1)
       (hm : marks evs = [.fill (c.times.getD (s.base.step + 1) 0), .done s.base.step])
       (hj : jumps evs = []) (hg : ¬ e.sq - s.thr < 0)
+      (ht : s'.thr = s.thr ∧ s'.gap = e.sq - s.thr)
   | opened (h0 : s.rf = none) (h1 : s'.rf.isSome = true) (hs : s'.base.step = s.base.step)
       (hm : marks evs = []) (hj : jumps evs = []) (hg : e.sq - s.thr < 0)
+      (ht : s'.thr = s.thr)
   | cont (h0 : s.rf.isSome = true) (h1 : s'.rf.isSome = true) (hs : s'.base.step = s.base.step)
-      (hm : marks evs = []) (hj : jumps evs = [])
+      (hm : marks evs = []) (hj : jumps evs = []) (ht : s'.thr = s.thr)
+      (hw : ∃ tk tk1, c.times[s.base.step]? = some tk ∧ c.times[s.base.step + 1]? = some tk1
+              ∧ 1 ≤ tk1 - tk)
   | jumped (h0 : s.rf.isSome = true) (h1 : s'.rf = none) (hs : s'.base.step = s.base.step)
       (hm : marks evs = []) (hj : jumps evs = [s.base.tgt])
       (hf : ∃ tk tk1, c.times[s.base.step]? = some tk ∧ c.times[s.base.step + 1]? = some tk1
-              ∧ JumpFacts tk tk1 s.base.tgt (e.sq - s.thr))
+              ∧ JumpFacts tk tk1 s.base.tgt (e.sq - s.thr) ∧ s'.base.tgt = tk1)
+      (ht : s'.thr = uniform0 e.psq e.u ∧ s'.gap = e.psq - uniform0 e.psq e.u
+              ∧ s'.base.cur = s.base.tgt)
+
+/-- The only two ways `NoisyMPSBackendImpl.sweep_complete` can raise from a reachable state. -/
+def ErrFacts (c : Cfg α) (s : NSt α) (e : Env α) (err : Err) : Prop :=
+  (err = .brentInit ∧ s.rf = none ∧ e.sq - s.thr < 0 ∧ ¬ (s.gap * (e.sq - s.thr) < 0))
+  ∨ (err = .zeroDiv ∧ s.rf.isSome = true
+      ∧ ∃ tk tk1, c.times[s.base.step]? = some tk ∧ c.times[s.base.step + 1]? = some tk1 ∧ 1 ≤ tk1 - tk)
+
+theorem init_none {a b fa fb eps : α} (h : Brent.init a b fa fb eps = none) : ¬ a ≤ b ∨ ¬ fa * fb < 0 := by
+  unfold Brent.init at h
+  by_cases h1 : a ≤ b
+  · by_cases h2 : fa * fb < 0
+    · simp [h1, h2] at h
+    · right; exact h2
+  · left; exact h1
+
+/-- right after `__init__` the first `get_next_abscissa` is a secant step with a non-zero
+denominator: it cannot raise -/
+theorem init_no_zeroDiv {a b fa fb eps : α} {r : Brent.St α} (heps : 0 < eps)
+    (h : Brent.init a b fa fb eps = some r) : divZero r = false := by
+  obtain ⟨hle, hlt, _, _, _, he, _, _, hcase⟩ := init_some h
+  have hfc : r.fc = r.fa := by
+    unfold Brent.init at h
+    simp only [hle, hlt, not_true_eq_false, if_false, Option.some.injEq] at h
+    rw [← h]
+  have hne : r.fa - r.fb ≠ 0 := by
+    intro h0
+    have : r.fa = r.fb := by linarith
+    rcases hcase with ⟨_, _, e1, e2⟩ | ⟨_, _, e1, e2⟩
+    · rw [e1, e2] at this; rw [this] at hlt; nlinarith [mul_self_nonneg fb]
+    · rw [e1, e2] at this; rw [this] at hlt; nlinarith [mul_self_nonneg fa]
+  have hsec : useSecant r = true := by
+    simp [useSecant, hfc, absv_eq_abs, he, heps]
+  simp only [divZero, hsec, if_true, isZero]
+  rcases lt_or_gt_of_ne hne with h1 | h1
+  · simp [h1]
+  · simp [h1, not_lt.mpr (le_of_lt h1)]
 
 theorem marks_pre (c : Cfg α) (b : St α) : marks (preRecs c b) = [] := by
   unfold preRecs; split <;> simp [marks, markOf, St.snap]
@@ -187,7 +229,7 @@ theorem sweeps_pre (c : Cfg α) (b : St α) : sweeps (preRecs c b) = [] := by
 /-- `NoisyMPSBackendImpl.sweep_complete`, case by case. -/
 theorem nsc_cases (c : Cfg α) (hc : GridOk c) (s : NSt α) (e : Env α) (hi : NInv c s)
     (hlive : s.base.step < c.nsteps) :
-    (∃ err, nsweepComplete c s e = .error err) ∨
+    (∃ err, nsweepComplete c s e = .error err ∧ ErrFacts c s e err) ∨
     ∃ s' evs, nsweepComplete c s e = .ok (s', evs) ∧ NInv c s' ∧ sweeps evs = []
       ∧ Outcome c s e s' evs := by
   obtain ⟨tk, tk1, htk, htk1, hle, hnone, hsome⟩ := hi.live hlive
@@ -203,16 +245,20 @@ theorem nsc_cases (c : Cfg α) (hc : GridOk c) (s : NSt α) (e : Env α) (hi : N
       simp only [hg, if_true]
       unfold openSearch
       cases hin : Brent.init s.base.cur s.base.tgt s.gap (e.sq - s.thr) 1 with
-      | none => left; exact ⟨_, rfl⟩
+      | none =>
+        left
+        refine ⟨.brentInit, rfl, Or.inl ⟨rfl, hrf, hg, ?_⟩⟩
+        rcases init_none hin with h | h
+        · exact absurd (by rw [htgt]; exact hcu) h
+        · exact h
       | some r0 =>
         simp only
-        by_cases hz : divZero r0 = true
-        · left; simp [hz]
+        have hz : ¬ divZero r0 = true := by rw [init_no_zeroDiv one_pos hin]; simp
         · right
           simp only [hz, Bool.false_eq_true, if_false]
           have hgood := good_init hin
           refine ⟨_, _, rfl, ⟨⟨hst.l2r, hst.sweep, hst.lb, hst.rb, hst.centre⟩, hi.stepLe, ?_, ?_⟩, rfl,
-            .opened hrf rfl rfl rfl rfl hg⟩
+            .opened hrf rfl rfl rfl rfl hg rfl⟩
           · intro h; exact absurd hlive (by simpa using Nat.not_lt.mpr h)
           · intro _
             refine ⟨tk, tk1, htk, htk1, hle, fun h => by simp at h, ?_⟩
@@ -233,7 +279,7 @@ theorem nsc_cases (c : Cfg α) (hc : GridOk c) (s : NSt α) (e : Env α) (hi : N
         have hcont := timestepComplete_cont c { s.base with cur := s.base.tgt } _ hn2 hnext ht2
         rw [hcont]
         refine ⟨_, _, rfl, ⟨⟨hst.l2r, hst.sweep, rfl, by show c.n - 1 + 1 = c.n; omega, hst.centre⟩,
-          by show s.base.step + 1 ≤ c.nsteps; omega, fun _ => rfl, ?_⟩, ?_, .done hrf rfl rfl ?_ ?_ hg⟩
+          by show s.base.step + 1 ≤ c.nsteps; omega, fun _ => rfl, ?_⟩, ?_, .done hrf rfl rfl ?_ ?_ hg ⟨rfl, rfl⟩⟩
         · intro _
           refine ⟨tk1, c.times[s.base.step + 2], htk1, ht2, hc.mono _ _ _ htk1 ht2,
             fun _ => ⟨rfl, ?_, ?_⟩, fun r hr => by simp at hr⟩
@@ -245,7 +291,7 @@ theorem nsc_cases (c : Cfg α) (hc : GridOk c) (s : NSt α) (e : Env α) (hi : N
       · have hlast := timestepComplete_last c { s.base with cur := s.base.tgt } hnext
         rw [hlast]
         refine ⟨_, _, rfl, ⟨⟨hst.l2r, hst.sweep, hst.lb, hst.rb, hst.centre⟩,
-          by show s.base.step + 1 ≤ c.nsteps; omega, fun _ => rfl, ?_⟩, ?_, .done hrf rfl rfl ?_ ?_ hg⟩
+          by show s.base.step + 1 ≤ c.nsteps; omega, fun _ => rfl, ?_⟩, ?_, .done hrf rfl rfl ?_ ?_ hg ⟨rfl, rfl⟩⟩
         · intro h; exact absurd (show s.base.step + 1 < c.nsteps from h) hnext
         · rw [sweeps_append, sweeps_pre]; simp [sweeps, sweepOf, St.snap]
         · rw [marks_append, marks_pre, hgetD, ← htgt]; simp [marks, markOf, St.snap]
@@ -266,7 +312,8 @@ theorem nsc_cases (c : Cfg α) (hc : GridOk c) (s : NSt α) (e : Env α) (hi : N
       refine ⟨_, _, rfl, ⟨⟨hst.l2r, hst.sweep, rfl, by show c.n - 1 + 1 = c.n; omega, rfl⟩, hi.stepLe,
         fun _ => rfl, ?_⟩, by simp [sweeps, sweepOf, St.snap],
         .jumped (by simp [hrf]) rfl rfl (by simp [marks, markOf, St.snap]) (by simp [jumps, jumpOf, St.snap])
-          ⟨tk, tk1, htk, htk1, _, ?_, ?_, hg1.inv.sign, le_trans hL hg1.loL, le_trans hg1.hiH hH⟩⟩
+          ⟨tk, tk1, htk, htk1, ⟨_, ?_, ?_, hg1.inv.sign, le_trans hL hg1.loL, le_trans hg1.hiH hH⟩, rfl⟩
+          ⟨rfl, rfl, rfl⟩⟩
       · intro _
         refine ⟨tk, tk1, htk, htk1, hle, fun _ => ⟨rfl, le_trans hL hx1, le_trans hx2 hH⟩,
           fun r hr => by simp at hr⟩
@@ -274,12 +321,20 @@ theorem nsc_cases (c : Cfg α) (hc : GridOk c) (s : NSt α) (e : Env α) (hi : N
       · simpa [isConverged, absv_eq_abs] using hconv
     · -- one more abscissa
       simp only [hconv, Bool.false_eq_true, if_false]
+      have hwide : 1 ≤ tk1 - tk := by
+        have h1 : ¬ |(provide (getNext r0).1 s.base.tgt (e.sq - s.thr)).b
+                    - (provide (getNext r0).1 s.base.tgt (e.sq - s.thr)).a| < 1 := by
+          simpa [isConverged, absv_eq_abs] using hconv
+        rw [← width_eq] at h1
+        have := hg1.loL; have := hg1.hiH
+        linarith [not_lt.mp h1]
       by_cases hz : divZero (provide (getNext r0).1 s.base.tgt (e.sq - s.thr)) = true
-      · left; simp [hz]
+      · left
+        exact ⟨.zeroDiv, by simp [hz], Or.inr ⟨rfl, by simp [hrf], tk, tk1, htk, htk1, hwide⟩⟩
       · right
         simp only [hz, Bool.false_eq_true, if_false]
         refine ⟨_, _, rfl, ⟨⟨hst.l2r, hst.sweep, hst.lb, hst.rb, hst.centre⟩, hi.stepLe, ?_, ?_⟩, rfl,
-          .cont (by simp [hrf]) rfl rfl rfl rfl⟩
+          .cont (by simp [hrf]) rfl rfl rfl rfl rfl ⟨tk, tk1, htk, htk1, hwide⟩⟩
         · intro h; exact absurd hlive (by simpa using Nat.not_lt.mpr h)
         · intro _
           refine ⟨tk, tk1, htk, htk1, hle, fun h => by simp at h, ?_⟩
@@ -287,5 +342,69 @@ theorem nsc_cases (c : Cfg α) (hc : GridOk c) (s : NSt α) (e : Env α) (hi : N
           simp only [Option.some.injEq] at hr'
           subst hr'
           exact ⟨_, L, H, w, hg1, rfl, rfl, hL, hH, hx1, hx2⟩
+
+
+theorem Outcome.withPrefix {c : Cfg α} {s s' : NSt α} {e : Env α} {evs : List (Rec α)} (recs : List (Rec α))
+    (hm : marks recs = []) (hj : jumps recs = []) (h : Outcome c s e s' evs) :
+    Outcome c s e s' (recs ++ evs) := by
+  cases h with
+  | done h0 h1 hs hm' hj' hg ht => exact .done h0 h1 hs (by rw [marks_append, hm, hm']; rfl) (by rw [jumps_append, hj, hj']; rfl) hg ht
+  | opened h0 h1 hs hm' hj' hg ht => exact .opened h0 h1 hs (by rw [marks_append, hm, hm']; rfl) (by rw [jumps_append, hj, hj']; rfl) hg ht
+  | cont h0 h1 hs hm' hj' ht hw => exact .cont h0 h1 hs (by rw [marks_append, hm, hm']; rfl) (by rw [jumps_append, hj, hj']; rfl) ht hw
+  | jumped h0 h1 hs hm' hj' hf ht => exact .jumped h0 h1 hs (by rw [marks_append, hm, hm']; rfl) (by rw [jumps_append, hj, hj']; rfl) hf ht
+
+/-- One sweep of the noisy back-end followed by its `sweep_complete`, case by case. -/
+theorem nstep_cases (c : Cfg α) (hc : GridOk c) (s : NSt α) (e : Env α) (hi : NInv c s)
+    (hlive : s.base.step < c.nsteps) :
+    (∃ err, nstep c s e = .error err ∧ ErrFacts c s e err) ∨
+    ∃ s' evs, nstep c s e = .ok (s', evs) ∧ NInv c s'
+      ∧ sweeps evs = [(s.base.step, s.base.cur, s.base.tgt)] ∧ Outcome c s e s' evs := by
+  obtain ⟨recs, rest, hsw, hmap, hplain⟩ := sweepCore_start c s.base hc.n2 hi.start
+  obtain ⟨hm, hj, hs⟩ := sweep_part s.base recs rest hmap hplain
+  unfold nstep
+  rw [hsw]
+  simp only
+  rcases nsc_cases c hc s e hi hlive with ⟨err, h, hE⟩ | ⟨s', evs, h, hi', hsw', ho⟩
+  · left; exact ⟨err, by rw [show ({ s with base := s.base } : NSt α) = s from rfl, h], hE⟩
+  · right
+    refine ⟨s', recs ++ evs, by rw [show ({ s with base := s.base } : NSt α) = s from rfl, h], hi', ?_,
+      ho.withPrefix recs hm hj⟩
+    rw [sweeps_append, hs, hsw']; rfl
+
+/-- `current_time` and `target_time` of a live state lie in the current step. -/
+theorem ninv_times (c : Cfg α) (s : NSt α) (hi : NInv c s) (hlive : s.base.step < c.nsteps) :
+    ∃ tk tk1, c.times[s.base.step]? = some tk ∧ c.times[s.base.step + 1]? = some tk1
+      ∧ tk ≤ s.base.cur ∧ s.base.cur ≤ tk1 ∧ tk ≤ s.base.tgt ∧ s.base.tgt ≤ tk1 := by
+  obtain ⟨tk, tk1, htk, htk1, hle, hnone, hsome⟩ := hi.live hlive
+  refine ⟨tk, tk1, htk, htk1, ?_⟩
+  cases hrf : s.rf with
+  | none =>
+    obtain ⟨h1, h2, h3⟩ := hnone hrf
+    exact ⟨h2, h3, by rw [h1]; exact hle, by rw [h1]⟩
+  | some r =>
+    obtain ⟨r0, L, H, w, hgood, _, htgt, hL, hH, hcl, hcu⟩ := hsome r hrf
+    have hm := getNext_mem r0
+    exact ⟨le_trans hL hcl, le_trans hcu hH, by rw [htgt]; exact le_trans hL (le_trans hgood.loL hm.1),
+      by rw [htgt]; exact le_trans hm.2 (le_trans hgood.hiH hH)⟩
+
+theorem nrun_nil (c : Cfg α) (s : NSt α) :
+    nrun c [] s = ([], s, if finished c s.base then .done else .tapeOut) := rfl
+
+theorem nrun_finished (c : Cfg α) (e : Env α) (es : List (Env α)) (s : NSt α) (h : finished c s.base = true) :
+    nrun c (e :: es) s = ([], s, .done) := by
+  simp [nrun, h]
+
+theorem nrun_error (c : Cfg α) (e : Env α) (es : List (Env α)) (s : NSt α) (err : Err)
+    (hf : finished c s.base = false) (h : nstep c s e = .error err) :
+    nrun c (e :: es) s = ([], s, .err err) := by
+  simp [nrun, hf, h]
+
+theorem nrun_ok (c : Cfg α) (e : Env α) (es : List (Env α)) (s s1 : NSt α) (evs : List (Rec α))
+    (hf : finished c s.base = false) (h : nstep c s e = .ok (s1, evs)) :
+    nrun c (e :: es) s = (evs ++ (nrun c es s1).1, (nrun c es s1).2.1, (nrun c es s1).2.2) := by
+  simp [nrun, hf, h]
+
+theorem not_finished_iff (c : Cfg α) (b : St α) : finished c b = false ↔ b.step < c.nsteps := by
+  simp [finished]
 
 end EmuVerif.Stepper
